@@ -13,6 +13,7 @@ import (
 	"os"
 	"runtime"
 	"strconv"
+	"strings"
 	"time"
 
 	"verif/vs"
@@ -82,6 +83,25 @@ func main() {
 		replay(os.Args[2])
 	case "porcheck":
 		porcheck()
+	case "trace": // development aid: the default execution of the first scenario whose name contains the given text
+		c := registry[os.Args[2]]
+		for _, sc := range c.Scenarios(os.Args[3]) {
+			if strings.Contains(sc.Name, os.Args[4]) && sc.New != nil {
+				inst := sc.New()
+				x := vs.Run(nil, inst.Body)
+				fmt.Printf("scenario %s\noutcome %s %s\n", sc.Name, x.Outcome, x.Detail)
+				for i, e := range x.Log {
+					fmt.Printf("%3d %-10s %v\n", i, e.K, e.A)
+				}
+				for _, b := range x.Blocked {
+					fmt.Printf("blocked %s: %s\n", b.Name, b.Desc)
+				}
+				for _, v := range inst.Check(x) {
+					fmt.Printf("VIOL %s %s\n", v.Rule, v.Msg)
+				}
+				return
+			}
+		}
 	default:
 		fatal("unknown command %s", os.Args[1])
 	}
